@@ -113,9 +113,9 @@ class Ctx:
 
     # -------------------------------------------------------------------- TLC
     def tlc(self, module, cfg, workers=None, timeout=900, env=None, simulate=None, extra=(),
-            xss=None, heap=None):
+            xss=None, heap=None, rundir=None, quiet=False):
         """Run TLC on spec/<module>.tla with spec/<cfg> in a scratch copy. Returns TlcResult."""
-        run = os.path.join(self.work, "tlc-%d" % len(self.cov["tlc_runs"]))
+        run = rundir or os.path.join(self.work, "tlc-%d" % len(self.cov["tlc_runs"]))
         os.makedirs(run)
         for f in os.listdir(SPEC):
             if f.endswith(".tla") or f.endswith(".cfg"):
@@ -143,16 +143,56 @@ class Ctx:
             subprocess.run(["pkill", "-f", os.path.join(run, "md")])
             raise Infra("TLC timeout after %ds: %s %s" % (timeout, module, cfg))
         res = TlcResult(p.stdout, p.returncode, " ".join(cmd[cmd.index("tlc2.TLC"):]), time.time() - t0)
-        self.cov["tlc_runs"].append(dict(cmd="tlc " + " ".join(cmd[cmd.index("tlc2.TLC") + 1:]),
-                                         generated=res.generated, distinct=res.distinct,
-                                         wall_s=round(res.wall, 1), ok=res.ok))
-        self.cov["states"] += res.distinct
-        self.cov["transitions"] += res.generated
+        if not quiet:
+            self.cov["tlc_runs"].append(dict(cmd="tlc " + " ".join(cmd[cmd.index("tlc2.TLC") + 1:]),
+                                             generated=res.generated, distinct=res.distinct,
+                                             wall_s=round(res.wall, 1), ok=res.ok))
+            self.cov["states"] += res.distinct
+            self.cov["transitions"] += res.generated
         if os.environ.get("VERIF_KEEP_WORK"):
             open(os.path.join(run, "stdout.txt"), "w").write(p.stdout)
         else:
             shutil.rmtree(run, ignore_errors=True)
         return res
+
+
+    def tlc_trace(self, module, cfg, recs, procs=None, timeout=3000, xss="64m", heap="3g", envname="VERIF_TRACE"):
+        """Trace validation of recs (list of dicts) by `module`: the records are striped over `procs`
+        ndjson files, each validated by its own TLC process (-workers 1) in parallel - the JSON
+        deserialisation of the CommunityModules is single-threaded and dominates otherwise.
+        Returns a TlcResult whose .out is the concatenation of all outputs."""
+        import concurrent.futures
+        procs = procs or min(NCPU, max(1, len(recs) // 500))
+        procs = max(1, procs)
+        base = os.path.join(self.work, "trace-%d" % len(self.cov["tlc_runs"]))
+        os.makedirs(base, exist_ok=True)
+        paths = []
+        for k in range(procs):
+            p = os.path.join(base, "shard%d.ndjson" % k)
+            write_ndjson(p, recs[k::procs])
+            paths.append(p)
+        runs_before = len(self.cov["tlc_runs"])
+
+        def one(p):
+            return self.tlc(module, cfg, workers=1, timeout=timeout, env={envname: p}, xss=xss, heap=heap,
+                            rundir=p + ".run", quiet=True)
+        with concurrent.futures.ThreadPoolExecutor(max_workers=procs) as ex:
+            results = list(ex.map(one, paths))
+        out = "\n".join(r.out for r in results)
+        agg = TlcResult(out, max(r.rc for r in results), results[0].cmd + "  (x%d shards)" % procs,
+                        max(r.wall for r in results))
+        agg.generated = sum(r.generated for r in results)
+        agg.distinct = sum(r.distinct for r in results)
+        agg.ok = all(r.ok for r in results)
+        agg.error = next((r.error for r in results if not r.ok), None)
+        del self.cov["tlc_runs"][runs_before:]
+        self.cov["tlc_runs"].append(dict(cmd="tlc " + agg.cmd, generated=agg.generated, distinct=agg.distinct,
+                                         wall_s=round(agg.wall, 1), ok=agg.ok, shards=procs, records=len(recs)))
+        self.cov["states"] += agg.distinct
+        self.cov["transitions"] += agg.generated
+        if not os.environ.get("VERIF_KEEP_WORK"):
+            shutil.rmtree(base, ignore_errors=True)
+        return agg
 
     # --------------------------------------------------------------- verdicts
     def violation(self, case, clause, detail=None):
@@ -231,13 +271,82 @@ class TlcResult:
         return recs
 
     def tuples(self, tag):
-        """Lines printed with PrintT(<<"tag", ...>>) -> list of lists (strings / ints)."""
-        res = []
-        for line in self.out.splitlines():
-            if line.startswith('<<"%s"' % tag):
-                body = line.strip()[2:-2]
-                res.append(json.loads("[" + body.replace("TRUE", "true").replace("FALSE", "false") + "]"))
-        return res
+        """Values printed with PrintT(<<"tag", ...>>) -> list of lists.  TLC pretty-prints long
+        values over several lines; tla_values reassembles them."""
+        return [v for v in tla_values(self.out) if isinstance(v, list) and v and v[0] == tag]
+
+
+def _tla_to_json(text):
+    """TLA+ value text (tuples, sets, strings, ints, booleans) -> JSON text (sets become arrays)."""
+    out, i, n = [], 0, len(text)
+    while i < n:
+        c = text[i]
+        if c == '"':
+            j = i + 1
+            while j < n and text[j] != '"':
+                j += 2 if text[j] == "\\" else 1
+            out.append(text[i:j + 1])
+            i = j + 1
+        elif text.startswith("<<", i):
+            out.append("[")
+            i += 2
+        elif text.startswith(">>", i):
+            out.append("]")
+            i += 2
+        elif c == "{":
+            out.append("[")
+            i += 1
+        elif c == "}":
+            out.append("]")
+            i += 1
+        elif text.startswith("TRUE", i):
+            out.append("true")
+            i += 4
+        elif text.startswith("FALSE", i):
+            out.append("false")
+            i += 5
+        else:
+            out.append(c)
+            i += 1
+    return "".join(out)
+
+
+def tla_values(out):
+    """All top-level tuple values `<< ... >>` printed by PrintT in a TLC output, also when TLC
+    wrapped them over several lines."""
+    vals, buf, depth = [], None, 0
+    for line in out.splitlines():
+        if buf is None:
+            if not line.startswith("<<"):
+                continue
+            buf, depth = [], 0
+        buf.append(line.strip())
+        # bracket balance outside string literals
+        instr, k, L = False, 0, line
+        while k < len(L):
+            ch = L[k]
+            if instr:
+                if ch == "\\":
+                    k += 1
+                elif ch == '"':
+                    instr = False
+            elif ch == '"':
+                instr = True
+            elif L.startswith("<<", k):
+                depth += 1
+                k += 1
+            elif L.startswith(">>", k):
+                depth -= 1
+                k += 1
+            k += 1
+        if depth <= 0:
+            text = " ".join(buf)
+            buf = None
+            try:
+                vals.append(json.loads(_tla_to_json(text)))
+            except Exception:
+                raise Infra("cannot parse a value printed by TLC: %r" % text[:300])
+    return vals
 
 
 def write_ndjson(path, recs):
